@@ -26,8 +26,8 @@ type likeCase struct {
 	// Seq: explicit cell sequence (core cells in all sequences of 3); overrides Order
 	Seq []string `json:"seq,omitempty"`
 	// Upper: direct comparison of the zero-alloc ToUpper with strings.ToUpper over Seq with one shared buffer
-	Upper bool `json:"upper,omitempty"`
-	BufLen int `json:"buf_len,omitempty"`
+	Upper  bool `json:"upper,omitempty"`
+	BufLen int  `json:"buf_len,omitempty"`
 }
 
 var c18cells []string
@@ -304,6 +304,7 @@ func c18Run(ctx *core.Ctx) {
 func init() {
 	core.Register(&core.Check{
 		ID:    "C18",
+		Setup: func() { c18Env() },
 		Level: "model_checking",
 		Rule: "case = (pattern, comparator, column kind, cell order). Cells: ALL strings of length <= 3 over a 13-code-point alphabet (a, A, b, é, É, ß, dotless i U+0131 (upper one byte shorter), long s U+017F, U+0250 (upper one byte longer), C1 control U+0080, Kelvin sign U+212A, '.', '(') plus a^k+c and c+b^k for k = 4..14 (lengths around the matcher's 10-byte buffer), and one null; " +
 			"patterns: ALL strings of length <= 3 over the alphabet plus '%' (incl. empty, %, %%, regex metacharacters, invalid regex) plus long patterns; comparators like and ilike; as string column (cells in ascending, descending and interleaved length order, because the case-insensitive matcher reuses one buffer across cells) and as enum column in chunks of 254 values; a 14-cell core in all sequences of 3 through ilike and through the zero-alloc ToUpper directly with 4 buffer sizes. " +
